@@ -26,7 +26,8 @@ impl Link {
 /// (per-fragment part of the packet).
 #[derive(Clone, Debug, PartialEq, Eq)]
 pub struct PreExt {
-    /// 0 hop-by-hop, 60 destination options, 43 routing
+    /// 0 hop-by-hop, 60 destination options, 43 routing,
+    /// 44 an *atomic* fragment header (offset 0, M = 0) in front of the real one
     pub kind: u8,
     /// length in 8-byte units minus one
     pub units: u8,
@@ -49,6 +50,9 @@ pub struct HostCfg {
     pub v4_opt_words: u8,
     /// IPv6: extension headers in front of the fragment header
     pub v6_pre: Vec<PreExt>,
+    /// IPv6: announce payload length 0 ("up to the end of the enclosing
+    /// data"); such frames carry no trailer
+    pub v6_zero_len: bool,
 }
 
 #[derive(Clone, Debug, PartialEq, Eq)]
@@ -179,7 +183,7 @@ pub fn ip_header_len(h: &HostCfg) -> usize {
         40 + h
             .v6_pre
             .iter()
-            .map(|e| (usize::from(e.units) + 1) * 8)
+            .map(|e| if e.kind == 44 { 8 } else { (usize::from(e.units) + 1) * 8 })
             .sum::<usize>()
             + 8
     } else {
@@ -198,7 +202,7 @@ pub fn encode_fragment(h: &HostCfg, f: &Frag, pad: usize, ttl: u8) -> (Vec<u8>, 
         let plen = ext_len + f.payload.len();
         assert!(plen <= 65_535, "harness: IPv6 payload length {plen} does not fit the length field");
         out.extend_from_slice(&[0x60 | (ttl >> 4), (ttl << 4) | 0x03, 0x12, 0x34]);
-        out.extend_from_slice(&(plen as u16).to_be_bytes());
+        out.extend_from_slice(&(if h.v6_zero_len { 0 } else { plen as u16 }).to_be_bytes());
         let first_next = h.v6_pre.first().map(|e| e.kind).unwrap_or(44);
         out.push(first_next);
         out.push(ttl);
@@ -206,6 +210,14 @@ pub fn encode_fragment(h: &HostCfg, f: &Frag, pad: usize, ttl: u8) -> (Vec<u8>, 
         out.extend_from_slice(&h.dst);
         for (i, e) in h.v6_pre.iter().enumerate() {
             let next = h.v6_pre.get(i + 1).map(|e| e.kind).unwrap_or(44);
+            if e.kind == 44 {
+                // atomic fragment header with its own identification
+                out.push(next);
+                out.push(0);
+                out.extend_from_slice(&[0, 0]);
+                out.extend_from_slice(&(f.id ^ 0x5a5a_5a5a).to_be_bytes());
+                continue;
+            }
             out.push(next);
             out.push(e.units);
             let body = (usize::from(e.units) + 1) * 8 - 2;
